@@ -74,6 +74,31 @@ theorem intersects_eq (c : Coll) (q : Unit) (hc : TimesWF c) (hq : ∀ i, qdt = 
     | error e => first | rfl | grind
     | ok c' => first | rfl | (simp only; cases c'.shapes.any xi <;> rfl) | grind
 
+/-- the loop of the translated `filter_by_property` (KeyError at the first member without the key, `append` in order),
+    followed by `type(self)(…)`, is the model's loop followed by `rewrap` -/
+theorem filterProp_loop_eq (c : Coll) (key : String) (f : PVal → Bool) :
+    ∀ (l acc : List Shape),
+      Src.Coll.filterByProperty.loop1 qdt xi xc qc c key f l acc =
+        (match filterPropLoop key f l acc with
+          | .error e => .error e
+          | .ok r => rewrap c.tag r) := by
+  intro l
+  induction l with
+  | nil => intro acc; rfl
+  | cons x xs ih =>
+    intro acc
+    unfold Src.Coll.filterByProperty.loop1 filterPropLoop
+    cases hk : assocGet x.properties key with
+    | none => simp
+    | some v =>
+      simp only [Option.isSome_some, Bool.not_true, Bool.false_eq_true, if_false, ih]
+      cases f v <;> simp
+
+theorem filterByProperty_eq (c : Coll) (key : String) (f : PVal → Bool) :
+    Src.Coll.filterByProperty qdt xi xc qc c key f = c.filterByProperty key f := by
+  simp only [Src.Coll.filterByProperty, Coll.filterByProperty, filterProp_loop_eq]
+  cases filterPropLoop key f c.shapes [] <;> rfl
+
 theorem bool_eq (c : Coll) : Src.Coll.bool qdt xi xc qc c = c.bool := by
   simp only [Src.Coll.bool, Coll.bool]
 
